@@ -44,6 +44,10 @@ var solvers = []solverSpec{
 	{"cvc5-fsq", func(f string, t int) []string {
 		return []string{"cvc5", fmt.Sprintf("--tlimit=%d", t), "--strings-exp", "--produce-models", "--full-saturate-quant", f}
 	}, func(s string) string { return "(set-logic ALL)\n" + s }},
+	// default auto-config starves MBQI; (key, index) invariants over maps of slices have no E-matching pattern and need it
+	{"z3-new-noauto", func(f string, t int) []string {
+		return []string{"z3-new", "smt.auto_config=false", fmt.Sprintf("-t:%d", t), f}
+	}, func(s string) string { return s }},
 }
 
 func runSolver(sp solverSpec, script string, dir string, name string, timeoutMs int) (string, string, int64) {
@@ -90,6 +94,44 @@ var loopCap = regexp.MustCompile(`\(_ re\.loop (\d+) (\d+)\)`)
 func cacheDir() string { return os.Getenv("GOVC_CACHE") }
 
 // Solve runs the portfolio on a script (which must end before check-sat; we append check-sat and model queries).
+// SolveProbe: a vacuity probe is only looking for a quick `unsat` (inconsistent assumptions); two solvers, 2 s.
+func SolveProbe(script string, workDir string, name string) *SolverResult {
+	full := script + "(check-sat)\n"
+	res := &SolverResult{Script: full, Status: "unknown"}
+	safe := strings.NewReplacer("/", "_", "(", "", ")", "", "*", "P", " ", "", ":", "_", "#", "-", "$", "S").Replace(name)
+	if len(safe) > 120 {
+		h := sha256.Sum256([]byte(name))
+		safe = safe[:120] + hex.EncodeToString(h[:4])
+	}
+	type answer struct {
+		sp solverSpec
+		st string
+		ms int64
+	}
+	ch := make(chan answer, 2)
+	ctx, cancel := context.WithCancel(context.Background())
+	defer cancel()
+	for _, sp := range []solverSpec{solvers[0], solvers[1]} {
+		sp := sp
+		go func() {
+			st, _, ms := runSolverCtx(ctx, sp, full, workDir, safe, 2000)
+			ch <- answer{sp, st, ms}
+		}()
+	}
+	for k := 0; k < 2; k++ {
+		a := <-ch
+		res.Tried = append(res.Tried, fmt.Sprintf("%s:%s:%dms", a.sp.name, a.st, a.ms))
+		if a.ms > res.Ms {
+			res.Ms = a.ms
+		}
+		if a.st == "unsat" || a.st == "sat" {
+			res.Status, res.Solver = a.st, a.sp.name
+			break
+		}
+	}
+	return res
+}
+
 func Solve(script string, workDir string, name string, timeoutMs int, thorough bool, values []string, noHint bool) *SolverResult {
 	full := script + "(check-sat)\n"
 	if len(values) > 0 {
@@ -169,15 +211,36 @@ func Solve(script string, workDir string, name string, timeoutMs int, thorough b
 	}
 	cancelAll()
 	if unsatBy == "" && satBy == "" {
-		// last resort: enumerative instantiation
-		st, out, ms := runSolver(solvers[3], full, workDir, safe, timeoutMs)
-		res.Tried = append(res.Tried, fmt.Sprintf("%s:%s:%dms", solvers[3].name, st, ms))
-		res.Ms += ms
-		if st == "unsat" {
-			unsatBy = solvers[3].name
-		} else if st == "sat" {
-			satBy, satOut = solvers[3].name, out
+		// last resort: enumerative instantiation (cvc5) and z3 without auto-configuration, side by side
+		ctx2, cancel2 := context.WithCancel(context.Background())
+		ch2 := make(chan answer, 2)
+		for _, sp := range []solverSpec{solvers[3], solvers[4]} {
+			sp := sp
+			go func() {
+				st, out, ms := runSolverCtx(ctx2, sp, full, workDir, safe, timeoutMs)
+				ch2 <- answer{sp, st, out, ms}
+			}()
 		}
+		var worst int64
+		for k := 0; k < 2; k++ {
+			a := <-ch2
+			if ctx2.Err() != nil && a.st != "unsat" && a.st != "sat" {
+				continue
+			}
+			res.Tried = append(res.Tried, fmt.Sprintf("%s:%s:%dms", a.sp.name, a.st, a.ms))
+			if a.ms > worst {
+				worst = a.ms
+			}
+			if a.st == "unsat" {
+				unsatBy = a.sp.name
+				break
+			} else if a.st == "sat" && a.sp.name == solvers[3].name {
+				satBy, satOut = a.sp.name, a.out
+				break
+			}
+		}
+		cancel2()
+		res.Ms += worst
 	}
 	if unsatBy == "" && satBy == "" && !noHint && len(values) > 0 {
 		// model search only (never a verdict): the same query with counted repetitions capped, which lets the solvers
@@ -324,6 +387,25 @@ func ObligationScriptPlain(o *Obligation) (string, []string) {
 	return obligationScript(o, false)
 }
 
+// specSymbols collects the uninterpreted spec-function symbols (opaque functions and recursive specs) of a term.
+func specSymbols(t *Term, out map[string]bool, seen map[*Term]bool) {
+	if t == nil || seen[t] {
+		return
+	}
+	seen[t] = true
+	if strings.HasPrefix(t.Op, "spec_") {
+		out[t.Op] = true
+	}
+	for _, a := range t.Args {
+		specSymbols(a, out, seen)
+	}
+	for _, ps := range t.Pats {
+		for _, p := range ps {
+			specSymbols(p, out, seen)
+		}
+	}
+}
+
 func obligationScript(o *Obligation, withExtra bool) (string, []string) {
 	var asserts []*Term
 	if o.exec != nil {
@@ -332,6 +414,34 @@ func obligationScript(o *Obligation, withExtra bool) (string, []string) {
 	}
 	if withExtra {
 		asserts = append(asserts, o.Extra...)
+	}
+	if o.exec != nil && len(o.exec.axiomTerms) > 0 {
+		// package axioms: keep those whose opaque spec symbols occur in the rest of the query
+		used := map[string]bool{}
+		for _, a := range asserts {
+			if _, isAx := o.exec.axiomTerms[a]; !isAx {
+				specSymbols(a, used, map[*Term]bool{})
+			}
+		}
+		specSymbols(o.Goal, used, map[*Term]bool{})
+		var kept []*Term
+		for _, a := range asserts {
+			if _, isAx := o.exec.axiomTerms[a]; isAx {
+				mine := map[string]bool{}
+				specSymbols(a, mine, map[*Term]bool{})
+				rel := len(mine) == 0
+				for sname := range mine {
+					if used[sname] {
+						rel = true
+					}
+				}
+				if !rel {
+					continue
+				}
+			}
+			kept = append(kept, a)
+		}
+		asserts = kept
 	}
 	named := ReplayTerms(o)
 	if o.Cover {
